@@ -28,13 +28,30 @@ Definition TBound (t : ty) : ty := TEnum [TUnit; t; t].
 Definition meta_value_ty : ty := TEnum [TBool; TI64; TF64; TU32; TU32].
 (* PatternKind: Text | Hex | Regexp *)
 Definition pattern_kind_ty : ty := TEnum [TUnit; TUnit; TUnit].
+Definition unknown_field_ty : ty := TEnum [].        (* decodes nothing *)
+Definition kind_eqb (a b : field_kind) : bool :=
+  match a, b with FPlain, FPlain | FSkipped, FSkipped | FCustom, FCustom => true | _, _ => false end.
+(* a struct is its non-skipped fields, in declaration order, without framing *)
+Definition shape_of (fty : string -> ty) (fs : list (string * field_kind)) : ty :=
+  TStruct (flat_map (fun f => match snd f with FSkipped => [] | _ => [fty (fst f)] end) fs).
+(* do the serde attributes found in the source agree with the ones the shapes were written for? *)
+Definition attrs_ok (expected : string -> field_kind) (fs : list (string * field_kind)) : bool :=
+  forallb (fun f => kind_eqb (snd f) (expected (fst f))) fs.
+Fixpoint lookup_ty (tbl : list (string * ty)) (name : string) : ty :=
+  match tbl with [] => unknown_field_ty | (n, t) :: r => if String.eqb n name then t else lookup_ty r name end.
+
 (* PatternInfo { pattern_id: PatternId(i32), ident_id: IdentId(u32), kind, is_private } *)
-Definition pattern_info_ty : ty := TStruct [TI32; TU32; pattern_kind_ty; TBool].
+Definition pattern_info_ty : ty :=
+  shape_of (lookup_ty [("pattern_id", TI32); ("ident_id", TU32); ("kind", pattern_kind_ty); ("is_private", TBool)])
+           pattern_info_fields.
 (* RuleInfo { namespace_id: i32, namespace_ident_id, ident_id, tags, [ident_ref skipped],
               metadata: Vec<(IdentId, MetaValue)>, patterns, num_private_patterns, is_global, is_private } *)
 Definition rule_info_ty : ty :=
-  TStruct [TI32; TU32; TU32; TSeq TU32; TSeq (TTuple [TU32; meta_value_ty]); TSeq pattern_info_ty;
-           TUsize; TBool; TBool].
+  shape_of (lookup_ty [("namespace_id", TI32); ("namespace_ident_id", TU32); ("ident_id", TU32); ("tags", TSeq TU32);
+                       ("ident_ref", TUnit);
+                       ("metadata", TSeq (TTuple [TU32; meta_value_ty])); ("patterns", TSeq pattern_info_ty);
+                       ("num_private_patterns", TUsize); ("is_global", TBool); ("is_private", TBool)])
+           rule_info_fields.
 (* ChainedPatternGap: Bounded(RangeInclusive<u32>) | Unbounded(RangeFrom<u32>) *)
 Definition gap_ty : ty := TEnum [TStruct [TU32; TU32]; TStruct [TU32]].
 (* SubPatternFlags: bitflags over u16, serialized as its bits *)
@@ -53,17 +70,20 @@ Definition sub_pattern_ty : ty :=
         ; TStruct [TU32; TU32; TU8]                  (* CustomBase64 { pattern, alphabet, padding } *)
         ; TStruct [TU32; TU32; TU8] ].               (* CustomBase64Wide *)
 (* FilesizeBounds { start: Bound<i64>, end: Bound<i64> } *)
-Definition filesize_bounds_ty : ty := TStruct [TBound TI64; TBound TI64].
+Definition filesize_bounds_ty : ty :=
+  shape_of (lookup_ty [("start", TBound TI64); ("end", TBound TI64)]) filesize_bounds_fields.
 (* HeaderConstraint: Unconstrained | Unsatisfiable | Constrained(Vec<u8>) *)
 Definition header_constraint_ty : ty := TEnum [TUnit; TUnit; TBytes].
 (* SubPatternAtom { sub_pattern_id, atom: Atom { bytes: SmallVec<u8>, exact, backtrack: u16 },
                     fwd_code: Option<NonZeroU32>, bck_code: Option<NonZeroU32> } *)
-Definition atom_ty : ty := TStruct [TU32; TStruct [TBytes; TBool; TU16]; TOpt TU32; TOpt TU32].
+Definition atom_inner_ty : ty :=
+  shape_of (lookup_ty [("bytes", TBytes); ("exact", TBool); ("backtrack", TU16)]) atom_fields.
+Definition atom_ty : ty :=
+  shape_of (lookup_ty [("sub_pattern_id", TU32); ("atom", atom_inner_ty); ("fwd_code", TOpt TU32); ("bck_code", TOpt TU32)])
+           sub_pattern_atom_fields.
 (* bitvec::BitVec<usize, Lsb0>: BitSeq { order: type name, head: BitIdx { width: u8, index: u8 },
                                           bits: u64, data: [usize] } *)
 Definition bitvec_ty : ty := TStruct [TStr; TStruct [TU8; TU8]; TUInt W64; TSeq TUsize].
-
-Definition unknown_field_ty : ty := TEnum [].        (* decodes nothing *)
 
 Definition field_ty (name : string) : ty :=
   if String.eqb name "ident_pool" then TSeq TStr                       (* StringPool: seq of str *)
@@ -88,5 +108,17 @@ Definition field_ty (name : string) : ty :=
   else if String.eqb name "rules_profiling_enabled" then TBool
   else unknown_field_ty.
 
-Definition rules_ty : ty :=
-  TStruct (flat_map (fun f => match snd f with FSkipped => [] | _ => [field_ty (fst f)] end) rules_fields).
+Definition rules_ty : ty := shape_of field_ty rules_fields.
+
+(* the serde attributes the shapes above were written for *)
+Definition rules_expected_kind (name : string) : field_kind :=
+  if String.eqb name "compiled_wasm_mod" then FCustom      (* serialize_wasm_mod / deserialize_wasm_mod: Option<bytes> *)
+  else if String.eqb name "warnings" then FSkipped
+  else FPlain.
+Definition rule_info_expected_kind (name : string) : field_kind :=
+  if String.eqb name "ident_ref" then FSkipped else FPlain.
+Definition all_plain (_ : string) : field_kind := FPlain.
+Definition source_attrs_ok : bool :=
+  attrs_ok rules_expected_kind rules_fields && attrs_ok rule_info_expected_kind rule_info_fields &&
+  attrs_ok all_plain pattern_info_fields && attrs_ok all_plain sub_pattern_atom_fields &&
+  attrs_ok all_plain filesize_bounds_fields && attrs_ok all_plain atom_fields.
